@@ -1,6 +1,8 @@
 """C15 - NumPy reductions and linear algebra on fixed-point arrays are exact."""
 from . import funcs
 
+from . import routes, fresh, flags, sizes, conv, dtype, carriers, funcs, ops, strings, pipeline, widths
+
 EXPLANATION = (
     "R1 routes converge: each of sum/cumsum/prod/cumprod/dot/trace/max/min/clip/transpose/diagonal as a method returns the functions entry that "
     "@implements(np.<name>) registers, forwarding axis/out/out_like/sizing/method; R2 scale typing of the reduction kernels incl. prod (N*t), cumprod "
@@ -19,7 +21,8 @@ def run(ck):
     res = funcs.kernel_typing(ck, "C15.R2")
     funcs.single_quantization(ck, "C15.R2", res, only=("sum", "cumsum", "prod", "cumprod", "dot", "trace", "fxp_max", "fxp_min", "sort", "clip", "transpose", "diagonal"))
     funcs.reduction_room(ck, "C15.R3")
-    from . import routes
     routes.dispatch_results_unconstrained(ck, "C15.R4")
+    routes.numpy_dispatch_transparent(ck, "C15.R5")
     funcs.sizing_record(ck, "C07.R2")
     funcs.results_through_funnel(ck, "C07.R4")
+    funcs.template_sizes(ck, "C08.R3")
